@@ -251,6 +251,8 @@ from . import helpers
 
 from . import initial
 
+from . import removals
+
 OBLIGATIONS = [
     ('C08.O1', 'filters dominate handlers', 'every handler dispatch and the last_recv_time refresh sit behind the Shutdown test and the magic '
      'test; both sessions hand a message to an endpoint only through a lookup of its source address.', o1),
@@ -266,4 +268,5 @@ OBLIGATIONS = [
      'length invariants used are protected by writer checks.', o4),
     ('C08.H', 'helpers the rules above rely on', 'the bodies of the helpers named by this property\'s rules compute what the rules assume (last_recv_frame); see rules/helpers.py', helpers.bundle('last_recv_frame')),
     ('C08.I', 'initial state', 'every constructor gives the fields this property\'s rules interpret (NULL_FRAME = none / nothing yet, 0 = first frame, latches open, typestate start) the value listed in tables/initial_state.json; every field compared with NULL_FRAME anywhere is listed; see rules/initial.py', initial.rule_for('C08')),
+    ('C08.R', 'who may remove', 'every call that takes elements out of a collection this property\'s rules rely on (keyed removal from a map, or bulk / positional removal) is one of the reviewed sites in tables/removals.json; a lookup turned into a removal, a second prune, a clear on another path is reported; see rules/removals.py', removals.rule_for('C08')),
 ]
